@@ -1,0 +1,5 @@
+//go:build !verif
+
+package engine
+
+func verifBeforeSend(batchIndex int, numberOfBatches int) {}
